@@ -1007,7 +1007,9 @@ PendCount(fs, open) ==
            raw == f.t = "RAW"
        IN IF open /\ raw /\ f.typ = 9 THEN PendCount(Tail(fs), ~Bit(f, 4))
           ELSE 1 + PendCount(Tail(fs), raw /\ f.typ \in {1, 5} /\ ~Bit(f, 4))
-ZStream(sid, s) == [sid |-> sid, st |-> s.st, cl |-> s.cl, hs |-> s.hs, ts |-> s.ts, hr |-> s.hr, tr |-> s.tr, by |-> s.by,
+\* (the four progress flags of the code are None until they are set to True: "N" / "T"; any other value is a difference)
+Flag3(b) == IF b THEN "T" ELSE "N"
+ZStream(sid, s) == [sid |-> sid, st |-> s.st, cl |-> s.cl, hs |-> Flag3(s.hs), ts |-> Flag3(s.ts), hr |-> Flag3(s.hr), tr |-> Flag3(s.tr), by |-> s.by,
                     ow |-> s.ow, iw |-> <<s.iw.cur, s.iw.max, s.iw.bp>>,
                     ecl |-> IF s.eclSet THEN <<s.ecl>> ELSE <<>>, acl |-> s.acl, meth |-> s.meth, auth |-> s.auth]
 ZSettings(S) == [i \in 1..Len(S.ord) |-> <<S.ord[i], IF S.ord[i] \in S.hn THEN Tail(S.q[S.ord[i]]) ELSE S.q[S.ord[i]], S.ord[i] \in S.hn>>]
